@@ -537,6 +537,9 @@ def set_common_op_fields(npu_op: NpuBlockOperation, cmd: NpuStripe, arch: Archit
     if cmd.weight_tensor is not None:
         npu_op.weights, npu_op.biases = create_weights(cmd.weight_tensor, cmd.weight_box, cmd.scale_tensor, arch)
     npu_op.activation = create_npu_activation(op)
+    if cmd.lut_index is not None and npu_op.activation.op_type == NpuActivationOp.TABLE_LOOKUP:
+        # the LUT slot of this stripe (see lut.optimize_high_level_cmd_stream)
+        npu_op.activation.lookup_table_index = cmd.lut_index
     npu_op.fused_quantize = any(op.type == Op.Quantize or op.original_type == Op.Quantize for op in ps.ops)
     npu_op.rounding_mode = get_rounding_mode(op, npu_op.fused_quantize)
     npu_op.block_config = NpuShape3D(height=ps.block_config[0], width=ps.block_config[1], depth=ps.block_config[3])
